@@ -28,6 +28,8 @@ pub enum Item {
     Repeat,
     /// an Encryption Response built from the server's Encryption Request (if one was seen), but dishonest
     Enc(EncResp),
+    /// the client sends nothing for this many (virtual) milliseconds
+    Stall(u32),
 }
 
 #[derive(Clone, Debug, Serialize, Deserialize)]
@@ -180,7 +182,52 @@ fn run_case(case: &Case) -> (sim::SimOutcome, Vec<Step>, bool, u64, u64) {
             } else {
                 None
             };
+            let mut ka_outstanding = false;
             for item in &case.items {
+                if let Item::Stall(ms) = item {
+                    // silence: only a client in the configuration phase is sent anything (Keep Alive, then the
+                    // timeout Disconnect); ticks are the multiples of 16 s since the connection was accepted
+                    let t0 = c.now_ms();
+                    let mut t1 = t0 + u64::from(*ms).max(1);
+                    // stay clear of the ticks, so that only this step can cross one
+                    let r = t1 % 16_000;
+                    if r < 100 {
+                        t1 += 100 - r;
+                    } else if r > 15_000 {
+                        t1 += 16_100 - r;
+                    }
+                    let ticks = t1 / 16_000 - t0 / 16_000;
+                    let state_before = st.clone();
+                    let mut expect = Expect::Kinds(vec![]);
+                    let mut ends = false;
+                    match &st {
+                        St::AwaitClientInfo if ticks > 0 => {
+                            let mut kinds = Vec::new();
+                            if !ka_outstanding {
+                                kinds.push("CfgKeepAlive");
+                                ka_outstanding = true;
+                                if ticks > 1 {
+                                    kinds.push("CfgDisconnect");
+                                }
+                            } else {
+                                kinds.push("CfgDisconnect");
+                            }
+                            if kinds.contains(&"CfgDisconnect") {
+                                ends = true;
+                                st = St::Ended;
+                            }
+                            expect = Expect::Kinds(kinds);
+                        }
+                        St::Unspecified => expect = Expect::Any,
+                        _ => {}
+                    }
+                    c.sleep_until_ms(t1).await;
+                    c.settle().await;
+                    let got: Vec<Pkt> = c.drain().into_iter().map(|(_, p)| p).collect();
+                    let done = c.server_done();
+                    sh2.lock().unwrap().steps.push(Step { frame_id: -1, frame_body: vec![], sent: format!("silence from {t0} ms to {t1} ms ({ticks} keep-alive ticks)"), state_before, expect, ends, got, server_done_after: done, deviation: true });
+                    continue;
+                }
                 // resolve the item into a frame
                 let mut legal_enc = false;
                 let (id, body): (i32, Vec<u8>) = match item {
@@ -190,6 +237,7 @@ fn run_case(case: &Case) -> (sim::SimOutcome, Vec<Step>, bool, u64, u64) {
                         Some(f) => f.clone(),
                         None => (0x00, vec![]),
                     },
+                    Item::Stall(_) => unreachable!(),
                     Item::Enc(variant) => {
                         let p = c.encryption_response(variant, &secret16).unwrap_or(Pkt::EncryptionResponse { secret: vec![1, 2, 3], token: vec![4, 5, 6] });
                         (p.id(), p.body())
@@ -617,6 +665,7 @@ impl Check for C06 {
                 Just(EncResp::PlainToken),
                 Just(EncResp::ForeignKey),
             ].prop_map(Item::Enc),
+            2 => prop_oneof![2 => proptest::sample::select(vec![15_000u32, 16_001, 17_000, 33_000, 50_000]), 1 => 1u32..70_000].prop_map(Item::Stall),
             1 => proptest::collection::vec(any::<u8>(), 0..40).prop_map(|data| { let mut w = rc::W::new(); w.string("minecraft:brand").raw(&data); Item::Raw { id: 0x02, body: w.0 } }),
             1 => proptest::option::of(proptest::collection::vec(any::<u8>(), 0..40)).prop_map(|p| { let mut w = rc::W::new(); w.string("some:cookie").bool(p.is_some()); if let Some(p) = p { w.bytes(&p); } Item::Raw { id: 0x01, body: w.0 } }),
         ];
@@ -679,6 +728,6 @@ impl Check for C06 {
         ]
     }
     fn sample(&self, case: &Case) -> Value {
-        json!({"intent": case.intent, "secret": case.cfg.secret.is_some(), "items": case.items.iter().map(|i| match i { Item::Pkt(p) => format!("Pkt:{}", p.kind()), Item::Enc(e) => format!("Enc:{e:?}").chars().take(24).collect(), Item::Raw { id, body } => format!("Raw:{id:#x}/{}B", body.len()), o => format!("{o:?}") }).collect::<Vec<_>>(), "status": case.adapters.status, "auth": case.adapters.auth})
+        json!({"intent": case.intent, "secret": case.cfg.secret.is_some(), "items": case.items.iter().map(|i| match i { Item::Pkt(p) => format!("Pkt:{}", p.kind()), Item::Enc(e) => format!("Enc:{e:?}").chars().take(24).collect(), Item::Stall(ms) => format!("Stall:{ms}ms"), Item::Raw { id, body } => format!("Raw:{id:#x}/{}B", body.len()), o => format!("{o:?}") }).collect::<Vec<_>>(), "status": case.adapters.status, "auth": case.adapters.auth})
     }
 }
